@@ -32,6 +32,9 @@ func Register(kind int, name string, g Gen) { Kinds[kind] = g; KindNames[kind] =
 // Crash marker used as the observed output when the implementation panicked.
 const CrashMark = -777
 
+// HangMark is the observed output of a case that did not return within the per-case time limit.
+const HangMark = -888
+
 func Line(c Case) string {
 	var b strings.Builder
 	b.WriteString(strconv.Itoa(c.Kind))
